@@ -148,6 +148,9 @@ def evaluate(plan, o, prefix="C13"):
             continue
         if c["closed_at"] is not None and _ev_at_or_before(o, c["closed_at"]) <= fev:
             continue
+        if any(c2["id"] > c["id"] and _accept_ev(o, c2) < fev for c2 in conns):
+            continue      # the client had already moved on to a newer connection (it gave this one up itself, e.g. after an
+                          # over-long line): what the gateway does to the abandoned link afterwards is no fault of a session
         before = [s for s in status if s[0] < fev]
         after = [s for s in status if s[0] > fev]
         last = before[-1][3] if before else "DISCONNECTED"
